@@ -53,8 +53,7 @@ def correspond(ctx: Ctx) -> Result:
     rng = ctx.rng
     coq, meta = [], []
     nwl = ctx.n(7, 40)
-    for i in range(nwl):
-        wl = cc.make_workload(rng)
+    for i, wl in enumerate(cc.workloads(rng, nwl)):
         for mode in ("sync", "async"):
             for si, sched in enumerate(schedules(wl, rng, ctx.thorough)):
                 root = ctx.scratch("take")
@@ -123,8 +122,7 @@ def check_after_failed_write(ctx: Ctx, res: Result):
     """the storage state left behind by an attempt in which a payload write FAILED (any rank, any write, error message
     empty or not) is 'no snapshot or a complete one' too: opening it raises, or it restores completely"""
     rng = ctx.rng
-    for i in range(ctx.n(6, 30)):
-        wl = cc.make_workload(rng)
+    for i, wl in enumerate(cc.workloads(rng, ctx.n(6, 30))):
         for mode in ("sync", "async"):
             root = ctx.scratch("ref")
             ref = cc.run_take(wl, os.path.join(root, "snap"), mode, "fifo")
